@@ -1,4 +1,4 @@
-import Netpoll.Buf.OwnerLemmas6
+import Netpoll.Buf.OwnerLemmas10
 /-!
 C03 – pool blocks are returned at most once; caller-owned memory never.
 
@@ -9,6 +9,18 @@ history `ops` over any number of buffers, Slice readers and appended buffers (a 
 -/
 namespace Netpoll.Props.C03
 open Netpoll.Buf Netpoll.Buf.Own
+
+/-- **Every block is returned to the pool at most once** – for every history over any number of buffers, Slice
+readers and appended buffers, including Close with Slice readers outstanding.  No hypothesis: the WriteDirect
+split (D4) frees a block too early, but not twice (proved by counting ownership tokens: a block has at most one of
+{reusable node struct, `caches` entry, `cachePeek`}, and `free` uses the token up). -/
+theorem C03_free_once (cfg : Cfg) (ops : List Op) (k : Nat) (bl : Block)
+    (h : (run cfg {} ops).mem.blocks[k]? = some bl) : bl.frees ≤ 1 :=
+  (run_tok ops tok_init).frees_le k bl h
+
+/-- the same on the event log: `free k` occurs at most once -/
+example : ((run { linkBufferCap := 16 } {} [.new 1 30, .mal 1 40, .flush 1, .next 1 35, .peek 1 3, .rel 1, .close 1]).mem.blocks.map (·.frees)) = [1, 1] := by
+  decide
 
 /-- **Only pool blocks are returned to the pool, and never a block above `mallocMax`** – for every history:
 each `free` event of the ledger concerns a block that `mcache.Malloc` handed out (never caller memory, never
